@@ -1,5 +1,6 @@
 // carquet's own writer driven by a generated write history (shared by C01, C05, C14, C18, C19).
 #pragma once
+#include <functional>
 #include "harness/common/pbt.hpp"
 #include "harness/common/consume.hpp"
 #include "gen/files.hpp"
@@ -53,7 +54,9 @@ inline rc::Gen<W> genW() {
     w.via_file = *rc::gen::arbitrary<bool>(); w.mode = *irange(0, 2); w.batch = *rc::gen::weightedOneOf<int>({{4, irange(1, 12)}, {1, irange(13, 400)}}); w.order = (uint32_t)*irange(1, 1 << 30);
     int nrg = *rc::gen::weightedOneOf<int>({{1, rc::gen::just(0)}, {4, rc::gen::just(1)}, {4, irange(2, 4)}});
     for (int g = 0; g < nrg; g++) {
-      size_t rows = (size_t)*rc::gen::weightedOneOf<int>({{1, rc::gen::just(0)}, {6, irange(1, 40)}, {2, irange(41, 300)}, {1, irange(1100, 3000)}});
+      // rarely a row group large enough for level runs with three-byte run headers (>= 8192) and 16-bit page counters
+      size_t rows = (size_t)*rc::gen::weightedOneOf<int>({{25, rc::gen::just(0)}, {150, irange(1, 40)}, {50, irange(41, 300)}, {25, irange(1100, 3000)}, {g == 0 ? 10 : 0, rc::gen::element(8192, 8200, 16384, 16390, 20000, 33000, 40000, 66000)}});
+      if (rows >= 8192 && *irange(0, 1)) w.page_size = 1 << 20;
       w.fs.rg_rows.push_back((int64_t)rows);
       std::vector<pw::ChunkSpec> rg; std::vector<std::vector<int>> pc; std::vector<int> nl;
       for (auto &lf : lv) {
@@ -158,6 +161,7 @@ struct WriteCtl {
   FILE *sink = nullptr;        // non-NULL: carquet_writer_create_file on this stream; else path-based
   std::string path;            // path used by the path-based writer (filled in)
   long abort_after = -1;       // >= 0: call carquet_writer_abort after that many write_batch/new_row_group calls
+  std::function<void()> before_abort;   // invoked right before carquet_writer_abort (fault injection into the abort itself)
   bool created = false, aborted = false, closed = false;
   long calls = 0;              // write_batch + new_row_group calls made
   bool any_nonok = false;      // some writer call (create/write_batch/new_row_group/close) reported failure
@@ -214,7 +218,7 @@ inline void runHistory(const W &w, const std::vector<pw::Leaf> &lv, WriteCtl &ct
     bool last = g + 1 == w.fs.row_groups.size();
     if (w.extra_nrg[g] >= 1 || !last) { carquet_status_t st = carquet_writer_new_row_group(wr); ctl.calls++; if (st != CARQUET_OK) { ctl.any_nonok = true; ctl.first_failure = "new_row_group -> " + std::to_string((int)st); failed = true; } }
   }
-  if (failed || stop_here()) { carquet_writer_abort(wr); ctl.aborted = true; return; }
+  if (failed || stop_here()) { if (ctl.before_abort) ctl.before_abort(); carquet_writer_abort(wr); ctl.aborted = true; return; }
   ctl.close_status = carquet_writer_close(wr);
   ctl.closed = true;
   if (ctl.close_status != CARQUET_OK) { ctl.any_nonok = true; ctl.first_failure = "close -> " + std::to_string((int)ctl.close_status); }
